@@ -72,9 +72,20 @@ func newEnv(t testing.TB, opts ...driver.TestRegistryOption) *env {
 	return newEnvDSN(t, dbx.GetSqlite(t, dbx.SQLiteMemory), opts...)
 }
 
+// scopedTB hands the cleanups that the registry registers (cancelling the context its file watchers live in) to the
+// environment instead of the whole test: a long run opens thousands of environments, and every namespace-file watcher
+// holds an inotify instance (128 per user here) until its context is cancelled.
+type scopedTB struct {
+	testing.TB
+	fns []func()
+}
+
+func (s *scopedTB) Cleanup(f func()) { s.fns = append(s.fns, f) }
+
 func newEnvDSN(t testing.TB, dsn *dbx.DsnT, opts ...driver.TestRegistryOption) *env {
 	opts = append([]driver.TestRegistryOption{driver.WithLogLevel("panic")}, opts...)
-	reg := driver.NewTestRegistry(t, dsn, opts...)
+	st := &scopedTB{TB: t}
+	reg := driver.NewTestRegistry(st, dsn, opts...)
 	reg.Logger().Logrus().SetOutput(io.Discard)
 	reg.Logger().Logrus().SetLevel(logrus.PanicLevel)
 	ctx := context.Background()
@@ -87,6 +98,11 @@ func newEnvDSN(t testing.TB, dsn *dbx.DsnT, opts ...driver.TestRegistryOption) *
 	e.rconn, s1 = serveBuf(reg.ReadGRPCServer(ctx))
 	e.wconn, s2 = serveBuf(reg.WriteGRPCServer(ctx))
 	e.stop = append(e.stop, s1, s2)
+	e.stop = append(e.stop, func() {
+		for i := len(st.fns) - 1; i >= 0; i-- {
+			st.fns[i]()
+		}
+	})
 	return e
 }
 
